@@ -279,7 +279,7 @@ func flagMembers(decls []declared) []declared {
 type flagFam struct {
 	name  string
 	sep   string
-	print func(v uint64) (string, *lx.Panic)         // printed member list for value v
+	print func(v uint64) (string, *lx.Panic)           // printed member list for value v
 	parse func(list string) (uint64, error, *lx.Panic) // value read from a member list in a module
 }
 
